@@ -109,6 +109,18 @@ class Ctx:
         self.rule_text[rid] = text
         self.floors[rid] = floor
 
+    def shared(self, fn, old: str, new: str, why: str = "") -> None:
+        """Run a rule function that reports under its home id `old` and re-label its obligations as `new` (a rule that is a
+        necessary condition of several properties is implemented once and reported under each property's own id)."""
+        n0 = len(self.obs)
+        fn(self)
+        for o in self.obs[n0:]:
+            if o.rule == old:
+                o.rule = new
+        if old in self.rule_text:
+            self.rule_text[new] = self.rule_text.pop(old) + (f" [{why}]" if why else "")
+            self.floors[new] = self.floors.pop(old)
+
     def ob(self, rule: str, f: Optional[FunctionInfo], role: str, node: Optional[Node], ok: bool, detail: str,
            nontrivial: bool = True, witness: Optional[List[str]] = None, text: Optional[str] = None,
            file: Optional[str] = None, line: Optional[int] = None) -> Ob:
